@@ -12,7 +12,8 @@ package fasthttp
 // the next call; DoRedirects and the Get/GetTimeout/GetDeadline/Post helpers (with and without a
 // caller-supplied dst) follow 302 hops.  Every delivered body the caller still holds (helper results,
 // bodies of responses not yet released) is compared again with its own request's content after every
-// later call (trace line "intact").
+// later call (trace line "intact").  The reason phrase of every delivered status line (tagged
+// "reply-to-N", or absent) must be the one sent for the call's own request, also on reused Responses.
 // Non-idempotent methods with MaxIdemponentCallAttempts=1 dominate, so a retry cannot mask a
 // reused connection.  The log (server: send/push, connection: pull/close, ReleaseConn hook:
 // rel, caller: head/ret) is validated against specs/client/ClientRoundTripTrace.tla; the
@@ -217,9 +218,14 @@ func (r *c04Rec) serve(c *c18Conn, req []byte) {
 	if chunked {
 		nbody = 3
 	}
-	head := "HTTP/1.1 200 OK\r\nX-Resp-Id: " + strconv.Itoa(id) + "\r\n"
+	// the reason phrase of the status line is tagged too ("reply-to-N"), or absent
+	reason := ""
+	if r := c04Reason(id); r != "" {
+		reason = " " + r
+	}
+	head := "HTTP/1.1 200" + reason + "\r\nX-Resp-Id: " + strconv.Itoa(id) + "\r\n"
 	if redir > 0 { // a redirect hop: same tagged body, the client is sent on to the next hop
-		head = "HTTP/1.1 302 Found\r\nX-Resp-Id: " + strconv.Itoa(id) + "\r\nLocation: " + c04URL(id, want, mode, redir-1)[len("http://c04.test"):] + "\r\n"
+		head = "HTTP/1.1 302" + reason + "\r\nX-Resp-Id: " + strconv.Itoa(id) + "\r\nLocation: " + c04URL(id, want, mode, redir-1)[len("http://c04.test"):] + "\r\n"
 	}
 	if sayClose {
 		head += "Connection: close\r\n"
@@ -508,6 +514,10 @@ func c04RunOne(rng *rand.Rand, cfg c04Cfg, stats map[string]int) (ex c04Exec, vi
 					got := string(resp.Header.Peek("X-Resp-Id"))
 					if got != strconv.Itoa(id) {
 						viol("misdelivery:"+desc, fmt.Sprintf("request %d received the response tagged %q (X-Fake=%q)", id, got, resp.Header.Peek("X-Fake")))
+						return false
+					}
+					if sm := string(resp.Header.StatusMessage()); sm != c04Reason(id) {
+						viol("stale-reason-phrase:"+desc, fmt.Sprintf("request %d: the delivered response has reason phrase %q, the server sent %q for it", id, sm, c04Reason(id)))
 						return false
 					}
 					return true
